@@ -105,3 +105,64 @@ pub proof fn lemma_finish(st: ModularChecksum, seen: Seq<u8>)
         assert(nwords(seen.len()) == q);
     }
 }
+
+// ---------------------------------------------------------------- sensitivity: any single-byte change changes the checksum
+
+pub proof fn lemma_be32_injective(a0: u8, a1: u8, a2: u8, a3: u8, b0: u8, b1: u8, b2: u8, b3: u8)
+    requires
+        be32(a0, a1, a2, a3) == be32(b0, b1, b2, b3),
+    ensures
+        a0 == b0 && a1 == b1 && a2 == b2 && a3 == b3,
+{
+    assert((((a0 as u32) << 24) | ((a1 as u32) << 16) | ((a2 as u32) << 8) | (a3 as u32))
+        == (((b0 as u32) << 24) | ((b1 as u32) << 16) | ((b2 as u32) << 8) | (b3 as u32))
+        ==> a0 == b0 && a1 == b1 && a2 == b2 && a3 == b3) by (bit_vector);
+}
+
+pub proof fn lemma_add32_injective(x: u32, y: u32, w: u32, v: u32)
+    ensures
+        (x != y) ==> add32(x, w) != add32(y, w),
+        (w != v) ==> add32(x, w) != add32(x, v),
+{
+}
+
+/// words of the common part agree, the word holding byte i differs, so the sums differ from that word on
+pub proof fn lemma_wsum_single_byte(c: Seq<u8>, i: int, b: u8, n: nat)
+    requires
+        0 <= i < c.len(),
+        b != c[i],
+    ensures
+        n <= i / 4 ==> wsum(c.update(i, b), n) == wsum(c, n),
+        n > i / 4 ==> wsum(c.update(i, b), n) != wsum(c, n),
+    decreases n,
+{
+    let d = c.update(i, b);
+    if n > 0 {
+        lemma_wsum_single_byte(c, i, b, (n - 1) as nat);
+        let k = n - 1;
+        if k == i / 4 {
+            // the word that holds byte i
+            if word(d, k) == word(c, k) {
+                lemma_be32_injective(byte_or_0(d, 4 * k), byte_or_0(d, 4 * k + 1), byte_or_0(d, 4 * k + 2), byte_or_0(d, 4 * k + 3),
+                    byte_or_0(c, 4 * k), byte_or_0(c, 4 * k + 1), byte_or_0(c, 4 * k + 2), byte_or_0(c, 4 * k + 3));
+                assert(false);
+            }
+            lemma_add32_injective(wsum(c, k as nat), wsum(c, k as nat), word(d, k), word(c, k));
+        } else {
+            assert(word(d, k) == word(c, k));
+            lemma_add32_injective(wsum(d, k as nat), wsum(c, k as nat), word(c, k), word(c, k));
+        }
+    }
+}
+
+/// C14: "sender and receiver disagree on any change of a single byte"
+pub proof fn theorem_single_byte_change_changes_checksum(c: Seq<u8>, i: int, b: u8)
+    requires
+        0 <= i < c.len(),
+        b != c[i],
+    ensures
+        modsum(c.update(i, b)) != modsum(c),
+{
+    lemma_wsum_single_byte(c, i, b, nwords(c.len()));
+    assert(nwords(c.len()) > i / 4);
+}
